@@ -11,6 +11,9 @@ import OAuth2Model.Driver.Dbg
 import OAuth2Model.Driver.AsyncD
 import OAuth2Model.Driver.Tok
 import OAuth2Model.Driver.Err
+import OAuth2Model.Driver.Intro
+import OAuth2Model.Driver.DevAuth
+import OAuth2Model.Driver.Rt
 import OAuth2Model.Driver.Adapter
 import OAuth2Model.Driver.Cfg
 
@@ -35,6 +38,9 @@ def dispatch (line : String) : String :=
     | "async" => Drv.AsyncOp.run args
     | "tok" => Drv.TokOp.run args
     | "err" => Drv.ErrOp.run args
+    | "intro" => Drv.IntroOp.run args
+    | "devauth" => Drv.DevAuthOp.run args
+    | "rt" => Drv.RtOp.run args
     | "adp" => Drv.AdapterOp.run args
     | "cfg" => Drv.CfgOp.run args
     | _ => "bad-op"
